@@ -357,6 +357,43 @@ func subConfig(out string, seed uint64, tier string, arg string) {
 					}
 				}
 			}
+			// the example is about the lints' defaults: it is the same text whatever configuration the registry carries — other
+			// values for every option of every configurable lint, or a section that cannot be applied at all
+			var other strings.Builder
+			for _, k := range tree.Keys() {
+				sub, ok := tree.Get(k).(*toml.Tree)
+				if !ok {
+					continue
+				}
+				fmt.Fprintf(&other, "[%s]\n", k)
+				for _, f := range sub.Keys() {
+					switch v := sub.Get(f).(type) {
+					case bool:
+						fmt.Fprintf(&other, "%s = %v\n", f, !v)
+					case int64:
+						fmt.Fprintf(&other, "%s = %d\n", f, v+7)
+					case string:
+						fmt.Fprintf(&other, "%s = %q\n", f, v+"x")
+					}
+				}
+			}
+			for desc, text := range map[string]string{"other values for every option": other.String(), "an ill-typed section": "[e_rsa_fermat_factorization]\nRounds = \"many\"\n", "a non-table section": "e_rsa_fermat_factorization = 5\n"} {
+				loaded, lerr := lint.NewConfigFromString(text)
+				if lerr != nil {
+					rep.count("example-under-config:unloadable")
+					continue
+				}
+				reg2, _ := g.Filter(lint.FilterOptions{ExcludeSources: lint.SourceList{"NoSuchSource"}})
+				reg2.SetConfiguration(loaded)
+				def2, err2 := reg2.DefaultConfiguration()
+				rep.Evaluations++
+				rep.distinctKey("example-under:" + desc)
+				if err2 != nil {
+					rep.violate(Violation{"C11", "with " + desc + " loaded, DefaultConfiguration fails: " + err2.Error(), "default-config-depends-on-loaded", map[string]interface{}{"loaded": text}})
+				} else if string(def2) != string(def) {
+					rep.violate(Violation{"C11", "with " + desc + " loaded, DefaultConfiguration prints a different example configuration", "default-config-depends-on-loaded", map[string]interface{}{"loaded": text, "example": string(def2)}})
+				}
+			}
 			cfg, cerr := lint.NewConfigFromString(string(def))
 			if cerr != nil {
 				rep.violate(Violation{"C11", "the example configuration does not load: " + cerr.Error(), "default-config-load", map[string]interface{}{}})
